@@ -313,7 +313,7 @@ fn gen_program(hs: &HistSeed, cfg: Cfg) -> Vec<Cmd> {
     let mut r = Runner::new(cfg);
     let mut id_var: BTreeMap<usize, String> = BTreeMap::new();
     let mut cmds = vec![];
-    let labels: Vec<Lab> = pool().into_iter().filter(|l| !matches!(l, Lab::Alpha(i) if *i > 9_999_999) && l.text().chars().count() <= 8 && l.parse_roundtrips()).collect();
+    let labels: Vec<Lab> = pool().into_iter().filter(|l| !matches!(l, Lab::Alpha(i) if *i > 9_999_999) && l.text().chars().count() <= 8 && l.parse_roundtrips() && !l.text().chars().any(char::is_whitespace)).collect();
     let mut nvars = 0;
     for (k, a, b, c, d) in hs.ops.iter().take(25) {
         let pres = r.m.alive();
